@@ -1,6 +1,6 @@
 CONSTANTS
   MaxN = 4
-  Pool = 26
+  Pool = 27
   Full3 = FALSE
 SPECIFICATION Spec
 INVARIANTS Export
